@@ -192,6 +192,12 @@ def run(ctx) -> None:
         ok = bool(stores) and all(any(d in dom.get(s, set()) for d in newdefs) for s in stores)
     rep.add("C01.R4", f"{uv.qname}:first-production-advances", ok, uv.loc(), "the first production of a name always advances its version" if ok else "the first production of a name can leave its version at 0 (e.g. an upstream None): a consumer that already ran on its signature default is never re-run with the upstream value")
 
+    # each argument is resolved for the node that receives it (the first available source *of that node*): nothing
+    # enters a node's inputs except through the per-node, per-parameter resolver call
+    from .c18 import check_inputs_from_resolver
+
+    check_inputs_from_resolver(ctx, "C01.R1")
+
     # ---- R6 ---------------------------------------------------------------------
     from .c02 import check_versions_from_snapshot
 
@@ -319,6 +325,20 @@ def check_bound_class_from_bound_tables(ctx, rule: str) -> None:
         merged = [x for x in cfg.nodes if x.kind == "stmt" and isinstance(x.ast, ast.Return) and _classify_return(x.ast) == "BOUND" and x not in inner and src(x.ast.value.elts[1]).startswith("graph.inputs.bound")]
         prec = not any(x in live for x in merged)
         rep.add(rule, f"{gvs.qname}:BOUND-own-inner-before-surfaced", prec, gvs.loc(), "a nested graph node takes the value its own inner graph bound before any binding surfaced from a sibling" if prec else "for a nested graph node the merged table of the enclosing graph is consulted before the node's own inner binding: when two nested graphs bind different objects under one name, the second one receives the first one's object")
+        # ... but not over a binding made on the enclosing graph itself: bind() on the outer graph re-binds the name for
+        # everything below it, exactly as the later of two bind() calls wins on the flat graph
+        val2 = {}
+        for t in cfg.nodes:
+            if t.kind == "test" and t.ast is not None:
+                for a in test_atoms(t.ast):
+                    tx = src(a)
+                    if isinstance(a, ast.Call) and dotted(a.func) == "isinstance" and "GraphNode" in tx:
+                        val2[tx] = True
+                    if isinstance(a, ast.Compare) and isinstance(a.ops[0], ast.In) and src(a.comparators[0]).endswith(("._bound", "inputs.bound")):
+                        val2[tx] = True  # bound on the enclosing graph itself (hence also in its merged table) and on the inner graph
+        live2 = reachable(cfg.entry, specialize(val2, cfg))
+        outer_first = not any(x in live2 for x in inner)
+        rep.add(rule, f"{gvs.qname}:BOUND-enclosing-own-before-inner", outer_first, gvs.loc(), "a binding made on the enclosing graph itself overrides the one made inside the nested graph" if outer_first else "a nested graph node takes its inner graph's binding although the enclosing graph re-binds the same input: outer.bind(k=9) over inner.bind(k=5) runs with 5, the inlined graph (later bind wins) with 9")
     rep.add(rule, f"{gvs.qname}:BOUND-inner-graph-path", bool(inner), gvs.loc(), "values bound on a nested graph are resolved as BOUND from the wrapper's own graph" if inner else "values bound on a nested graph have no BOUND path of their own: where the outer merged table lacks them they fall to the DEFAULT class and are deep-copied (or are not found at all)")
 
 
